@@ -228,6 +228,8 @@ pub fn expr_depth(e: &Expr) -> usize {
         Mult(a, b) | Div(a, b) | Rem(a, b) | Add(a, b) | Sub(a, b) | Equals(a, b) | NotEquals(a, b) | GreaterThan(a, b)
         | GreaterThanEquals(a, b) | LessThan(a, b) | LessThanEquals(a, b) | And(a, b) | Or(a, b) | BitAnd(a, b)
         | BitOr(a, b) | BitXor(a, b) | Contains(a, b) => 1 + expr_depth(a).max(expr_depth(b)),
+        #[allow(unreachable_patterns)]
+        _ => 0,
     }
 }
 
